@@ -27,7 +27,8 @@ else:
     _tag = hashlib.sha256(os.path.realpath(REPO).encode()).hexdigest()[:10]
     HARNESS = os.path.join(WORK, "alt-" + _tag, "harness")
     BINDIR = os.path.join(WORK, "alt-" + _tag, "bin")
-EVID = os.path.join(VERIF, "evidence")
+# evidence of a trial run against a scratch copy must not overwrite the evidence of the real tree
+EVID = os.path.join(VERIF, "evidence") if HARNESS == HARNESS_SRC else os.path.join(WORK, "alt-" + _tag, "evidence")
 OVERLAY = os.path.join(WORK, "overlay", "overlay.json")
 NCPU = os.cpu_count() or 4
 
